@@ -16,8 +16,16 @@ def classify_exc(e):
     passname = None
     if stage == "other" and "__RunPass" in funcs and isinstance(e, AttributeError) and "GetName" in str(e):
         stage = "pass-returned-false"
+        t = e.__traceback__
+        while t is not None:
+            if t.tb_frame.f_code.co_name == "__RunPass" and "p" in t.tb_frame.f_locals:
+                try:
+                    passname = t.tb_frame.f_locals["p"].Name
+                except BaseException:
+                    pass
+            t = t.tb_next
     code = e.message.code if isinstance(e, Errors.CompileException) else None
-    return {"exc": type(e).__name__, "stage": stage, "where": funcs[-1] if funcs else "?", "code": code, "msg": str(e)[:160]}
+    return {"exc": type(e).__name__, "stage": stage, "where": funcs[-1] if funcs else "?", "code": code, "msg": str(e)[:160], "pass": passname}
 
 sys.set_int_max_str_digits(0)
 def jsonable(v):
